@@ -38,6 +38,10 @@ def gen_cases(rng, tier):
             cases.append({'kind': 'lookahead', 'n': n, 'steps': steps, 'sparse': rng.pick([None, None, 'leading', 'always'])})
     for fmt in ('csv', 'json', 'excel'):
         cases.append({'kind': 'lookahead', 'n': 600, 'steps': [{'t': 'dump', 'format': fmt}], 'sparse': None})
+    # a flow consumed by another flow through load((descriptor, resources)): the boundary must stay lazy
+    for n in ([600] if tier != 'thorough' else [600, 20000]):
+        for cast in (None, 'schema'):
+            cases.append({'kind': 'boundary', 'n': n, 'cast': cast})
     # load(limit_rows=K): once K rows are delivered nothing more may be pulled from the source
     for n in ([40, 5000] if tier != 'thorough' else [40, 5000, 100000]):
         for k in (1, 10):
@@ -63,9 +67,35 @@ def run_limit(case):
         return {'outcome': ['raised', type(e).__name__, str(e)[:200]]}
 
 
+def run_boundary(case):
+    import dataflows as DF
+    from dataflows import Flow
+    pulled = [0]
+
+    def gen():
+        for i in range(case['n']):
+            pulled[0] += 1
+            yield {'i': i}
+    try:
+        with quiet():
+            inner = Flow(gen()).datastream()
+            kw = {'cast_strategy': DF.load.CAST_WITH_SCHEMA} if case['cast'] == 'schema' else {}
+            outer = Flow(DF.load((inner.dp.descriptor, inner.res_iter), **kw)).datastream()
+            la, delivered = [], 0
+            for res in outer.res_iter:
+                for row in res:
+                    delivered += 1
+                    la.append(pulled[0] - delivered)
+        return {'outcome': 'returned', 'max_lookahead': max(la) if la else 0, 'deliveries': delivered, 'pulls': pulled[0]}
+    except Exception as e:
+        return {'outcome': ['raised', type(e).__name__, str(e)[:200]]}
+
+
 def run_impl(case):
     if case['kind'] == 'limit':
         return run_limit(case)
+    if case['kind'] == 'boundary':
+        return run_boundary(case)
     out = run_pipeline(case['n'], case['steps'], os.path.join(scratch(), 'c6_%s' % digest(case)), sparse=case.get('sparse'))
     pulled, la = 0, []
     for e in out['events']:
@@ -100,7 +130,7 @@ def oracle(case, out):
 
 
 def coq_term(case, out):
-    if case['kind'] == 'limit' or 'events' not in out:
+    if case['kind'] in ('limit', 'boundary') or 'events' not in out:
         return None
     return coq_trace_term(case['n'], case['steps'], out)
 
